@@ -121,4 +121,21 @@ CHECKS['C06'] = {
     'level_note': 'Plan difference is taken from EXPLAIN text; variants that the optimizer plans identically are counted as trivial and excluded from distinct_nontrivial.',
 }
 
+CHECKS['C16'] = {
+    'level': 'exploration',
+    'rule': 'inputs drawn from: random bytes, printable soup, token soup over the lexer vocabulary, valid statements of the full generator grammar, token-level mutations and truncations of those, '
+            'semantic stressors (x/0, overflow, NULL/ill-typed function arguments, CASE, HAVING, sub-queries, unknown names, arity errors), oversized values, nesting towers; each against a live populated database '
+            '(pool of 4 workers). Monitors: panic hook in every thread, watchdog with the no-progress hang rule, liveness probe after every input, table re-read after every failing statement. '
+            'Distinct = hash of the input text; every input is non-trivial (it reaches the engine).',
+    'legs': {'quick': [{'flavour': 'prod', 'shards': 16}, {'flavour': 'prod', 'shards': 4, 'engine': 'C16N'}],
+             'thorough': [{'flavour': 'prod', 'shards': 16}, {'flavour': 'prod', 'shards': 4, 'engine': 'C16N'}]},
+    'min_evaluations': {'quick': 50000, 'thorough': 1000000},
+    'min_counters': {'quick': {'state_unchanged_checks': 20000, 'inputs.random-bytes': 2000, 'inputs.mutated': 10000}, 'thorough': {'state_unchanged_checks': 400000}},
+    'assumptions': ['a database is retired after 60 inputs, after its first successful UPDATE and after an oversized row (stability envelope of the unchanged tree)', 'release-equivalent build'],
+    'technique': 'fuzzing with runtime monitors: panic hook, hang watchdog, liveness probe, state-unchanged-after-error oracle; process deaths attributed through declared intents',
+    'level_text': '~96k (quick) / 1.9M (thorough) hostile inputs are executed against the real engine; none may panic any thread, hang, kill the process, change data when it fails, or leave the database unable to answer. '
+                  'Panic sites already known are keyed by file + message, so a new site or a new failure mode is a violation.',
+    'level_note': 'Sampling of the input space; coverage feedback (libFuzzer) is a different technique family and is not used. Hang = no CPU/tap/tick progress for 6 s after a 60 s deadline; a slow run is inconclusive.',
+}
+
 NOT_APPLICABLE = [{'property_id': c, 'reason': 'check not built yet in this session (work in progress, see DESIGN.md)'} for c in ALL if c not in CHECKS]
